@@ -229,9 +229,26 @@ theorem partStart_ne_none {s : Bytes} {pos0 : Nat} {st : V6} (ctx : Ctx s pos0) 
 
 theorem isHexDigit_zero : isHexDigit 0 = false := by decide
 
-theorem v6Loop_safe (s : Bytes) (pos0 : Nat) (wb tr : Bool) (ctx : Ctx s pos0) :
+theorem skipSecondColon_safe (fx : Bool) (s : Bytes) (ii pos : Nat) (h : pos < s.length) :
+    Safe (skipSecondColon fx s ii pos) (fun p => pos ≤ p ∧ p ≤ s.length) := by
+  unfold skipSecondColon
+  split
+  · rw [rd_eq (by omega : pos + 1 ≤ s.length)]
+    simp only [pure_bind]
+    split
+    · exact Safe.pure ⟨by omega, by omega⟩
+    · exact Safe.pure ⟨Nat.le_refl _, by omega⟩
+  · exact Safe.pure ⟨Nat.le_refl _, by omega⟩
+
+theorem skipSecondColon_ne7 (fx : Bool) (s : Bytes) (ii pos : Nat) (h : ii ≠ 7) :
+    skipSecondColon fx s ii pos = pure pos := by
+  unfold skipSecondColon
+  have : (fx && ii == 7) = false := by simp [h]
+  simp [this]
+
+theorem v6Loop_safe (fx : Bool) (s : Bytes) (pos0 : Nat) (wb tr : Bool) (ctx : Ctx s pos0) :
     ∀ (fuel : Nat) (st : V6), Inv s pos0 st → s.length < st.pos + fuel →
-      Safe (v6Loop s wb tr fuel st) (OutOK s) := by
+      Safe (v6Loop fx s wb tr fuel st) (OutOK s) := by
   intro fuel
   induction fuel with
   | zero => intro st inv h; have := inv.pos_le; omega
@@ -271,10 +288,14 @@ theorem v6Loop_safe (s : Bytes) (pos0 : Nat) (wb tr : Bool) (ctx : Ctx s pos0) :
           · rw [setG_eq hii8]
             simp only [pure_bind]
             split
-            · split
+            · rename_i hc58
+              have hlt' : st.pos + 1 < s.length := charAt_lt (ne_zero_of_beq hc58 (by decide))
+              split
               · exact Safe.pure trivial
-              · refine ih _ ⟨hlt, by simp; omega, Or.inr (by simp), ?_, ?_⟩ (by simp; omega)
-                · intro p hp; simp at hp; omega
+              · refine Safe.bind (skipSecondColon_safe fx s (st.ii + 1) (st.pos + 1) hlt') ?_
+                intro p ⟨hp1, hp2⟩
+                refine ih _ ⟨hp2, by simp; omega, Or.inr (by simp), ?_, ?_⟩ (by simp; omega)
+                · intro q hq; simp at hq; omega
                 · intro hn; simp at hn
             · refine ih _ ⟨hlt, by simp; omega, ?_, ?_, ?_⟩ (by simp; omega)
               · rcases inv.cpos with h | h
@@ -483,8 +504,8 @@ theorem ptonTail_safe (s : Bytes) (tr : Bool) (pos : Nat) (addr : Addr) (bits : 
 /-- **Memory safety of the parser**: for every input and both flags the model of `irc_pton`
     returns normally: no out-of-bounds read of the string, no out-of-bounds group access, no
     NULL `part_start` in the `.` case, no loop runs out of fuel. -/
-theorem pton_safe' (input : Bytes) (wb tr : Bool) : Safe (pton input wb tr) (fun _ => True) := by
-  unfold pton
+theorem pton_safe' (fx : Bool) (input : Bytes) (wb tr : Bool) : Safe (ptonWith fx input wb tr) (fun _ => True) := by
+  unfold ptonWith
   refine Safe.bind (skipSpace_safe input _ 0 (by omega) (by omega)) ?_
   intro pos0 ⟨_, hle, hsp⟩
   split
@@ -496,7 +517,7 @@ theorem pton_safe' (input : Bytes) (wb tr : Bool) : Safe (pton input wb tr) (fun
     · exact Safe.pure trivial
     · rename_i st0
       have inv := ho st0 rfl
-      refine Safe.bind (v6Loop_safe input pos0 wb tr ctx _ st0 inv (by omega)) ?_
+      refine Safe.bind (v6Loop_safe fx input pos0 wb tr ctx _ st0 inv (by omega)) ?_
       intro out hout
       split
       · exact Safe.pure trivial
@@ -537,8 +558,80 @@ theorem pton_safe' (input : Bytes) (wb tr : Bool) : Safe (pton input wb tr) (fun
         exact ptonTail_safe _ _ _ _ _ _ hp2
       · exact ptonTail_safe _ _ _ _ _ _ hle
 
-theorem pton_safe (input : Bytes) (wantBits allowTrailing : Bool) :
-    (pton input wantBits allowTrailing).isOk = true :=
-  (pton_safe' input wantBits allowTrailing).isOk
+theorem pton_safe (fx : Bool) (input : Bytes) (wantBits allowTrailing : Bool) :
+    (ptonWith fx input wantBits allowTrailing).isOk = true :=
+  (pton_safe' fx input wantBits allowTrailing).isOk
+
+/-! ### where the uninitialised `ip4` can be read -/
+
+theorem ptonTail_uninit (s : Bytes) (tr : Bool) (pos : Nat) (addr : Addr) (bits : Option Nat)
+    (u : Bool) (h : pos ≤ s.length) : Safe (ptonTail s tr pos addr bits u) (fun r => r.uninit = u) := by
+  unfold ptonTail
+  rw [rd_eq h]
+  simp only [pure_bind]
+  split <;> exact Safe.pure rfl
+
+/-- The result of `irc_pton` depends on the uninitialised local `ip4` only when the input
+    starts with a blank (the pinned code then uses `ip4` although `irc_pton_ip4` failed). -/
+theorem pton_uninit_only_after_blank (fx : Bool) (input : Bytes) (wb tr : Bool) :
+    Safe (ptonWith fx input wb tr) (fun r => r.uninit = true → Bytes.isSpace (charAt input 0) = true) := by
+  have ff : ∀ {r : PtonRes}, r.uninit = false → (r.uninit = true → Bytes.isSpace (charAt input 0) = true) := by
+    intro r h1 h2; rw [h1] at h2; cases h2
+  unfold ptonWith
+  refine Safe.bind (skipSpace_safe input _ 0 (by omega) (by omega)) ?_
+  intro pos0 ⟨_, hle, hsp⟩
+  split
+  · rename_i hv6
+    have ctx : Ctx input pos0 := ⟨fun i hi => hsp i (by omega) hi, colonFirst_of_isV6Text hv6⟩
+    refine Safe.bind (v6Start_safe input pos0 hle) ?_
+    intro o ho
+    split
+    · exact Safe.pure (ff rfl)
+    · rename_i st0
+      have inv := ho st0 rfl
+      refine Safe.bind (v6Loop_safe fx input pos0 wb tr ctx _ st0 inv (by omega)) ?_
+      intro out hout
+      split
+      · exact Safe.pure (ff rfl)
+      · exact Safe.pure (ff rfl)
+      · rename_i st
+        obtain ⟨h1, h2, h3⟩ := hout
+        refine Safe.bind (finishShift_safe st.addr st.ii st.cpos h2 h3) ?_
+        intro a _
+        exact (ptonTail_uninit _ _ _ _ _ _ h1).mono (fun r hr => ff hr)
+  · split
+    · refine Safe.bind (ptonIp4_safe input pos0 wb tr hle) ?_
+      intro r hr
+      split
+      · rename_i x
+        have hx := hr x rfl
+        simp only
+        split
+        · rw [setG_eq (by decide : 5 < 8)]
+          simp only [pure_bind]
+          rw [setG_eq (by decide : 6 < 8)]
+          simp only [pure_bind]
+          rw [setG_eq (by decide : 7 < 8)]
+          simp only [pure_bind]
+          exact (ptonTail_uninit _ _ _ _ _ _ hx).mono (fun r hr => ff hr)
+        · exact (ptonTail_uninit _ _ _ _ _ _ hx).mono (fun r hr => ff hr)
+      · split
+        · rename_i hpos
+          have hp0 : 0 < pos0 := by
+            have : pos0 ≠ 0 := by simpa using hpos
+            omega
+          rw [setG_eq (by decide : 5 < 8)]
+          simp only [pure_bind]
+          exact (ptonTail_uninit _ _ _ _ _ _ hle).mono (fun r _ _ => hsp 0 (by omega) hp0)
+        · exact (ptonTail_uninit _ _ _ _ _ _ hle).mono (fun r hr => ff hr)
+    · rw [rd_eq hle]
+      simp only [pure_bind]
+      split
+      · rename_i hc
+        have hlt := charAt_lt (ne_zero_of_beq hc (by decide))
+        refine Safe.bind (scan_safe input isStar keep isStar_zero _ _ _ hlt (by omega)) ?_
+        rintro ⟨p, acc⟩ ⟨hp1, hp2⟩
+        exact (ptonTail_uninit _ _ _ _ _ _ hp2).mono (fun r hr => ff hr)
+      · exact (ptonTail_uninit _ _ _ _ _ _ hle).mono (fun r hr => ff hr)
 
 end Iauthd.Addr
